@@ -221,7 +221,7 @@ func evalFlags(fn *ssa.Function, env map[string]bool) (bool, bool) {
 				return x.Value.String() == "true", true
 			}
 		case *ssa.Call:
-			if f := x.Call.StaticCallee(); f != nil && f.Name() == "get" && len(x.Call.Args) == 1 {
+			if op, isFlag := flagOp(&x.Call); isFlag && op == "get" {
 				if fa, ok := x.Call.Args[0].(*ssa.FieldAddr); ok {
 					name := fieldOf(fa.X.Type(), fa.Field).Name()
 					b, known := env[name]
@@ -517,10 +517,7 @@ func c10N4(l *core.Ledger, r *rt) {
 	for _, f := range allFuncs(l.Prog, r.pkg) {
 		sx.AllInstrs(f, func(_ sx.Node, in ssa.Instruction) {
 			c, ok := in.(*ssa.Call)
-			if !ok || c.Call.StaticCallee() == nil || c.Call.StaticCallee().Name() != "clear" || len(c.Call.Args) != 1 {
-				return
-			}
-			if _, is := fieldAddrOf(c.Call.Args[0], "streamBroken"); !is {
+			if !ok || !isFlagOp(&c.Call, "clear", "streamBroken") {
 				return
 			}
 			for _, rt := range roots {
@@ -674,11 +671,7 @@ func c10N5(l *core.Ledger, r *rt) {
 	okGuard := edgesDominate(f, guard, sx.NodeOf(g))
 	// set() between the test and the go (or right after) on the same path
 	sets := callsTo(f, func(cc *ssa.CallCommon) bool {
-		if cc.StaticCallee() == nil || cc.StaticCallee().Name() != "set" || len(cc.Args) != 1 {
-			return false
-		}
-		_, is := fieldAddrOf(cc.Args[0], "connEstablished")
-		return is
+		return isFlagOp(cc, "set", "connEstablished")
 	})
 	okSet := false
 	for _, e := range guard {
